@@ -622,7 +622,7 @@ func mutate(r *hx.Rng, b []byte) []byte {
 
 func genDec(a hx.Args) {
 	r := hx.NewRng(a.Seed)
-	per := a.N(14, 60)
+	per := a.N(16, 60)
 	hangQuota := 3
 	emit := func(e *entry, ver int, b []byte) {
 		hx.Emit("dec %s %d %s", e.name, ver, hx.Hex(nonNil(b)))
@@ -633,7 +633,9 @@ func genDec(a hx.Args) {
 			if ver > e.maxV && !e.verF {
 				continue
 			}
-			emit(e, ver, nil)
+			if r.Chance(30) {
+				emit(e, ver, nil)
+			}
 			for k := 0; k < per; k++ {
 				c, v := mkValue(r, e, ver, 1+r.Intn(6))
 				valid := c.AppendTo(nil)
@@ -642,7 +644,7 @@ func genDec(a hx.Args) {
 				case 0:
 					b = valid // a valid message
 				case 1:
-					b = r.Bytes(r.Intn(12)) // arbitrary short bytes
+					b = r.Bytes(3 + r.Intn(12)) // arbitrary short bytes
 				default:
 					b = mutate(r, valid)
 				}
@@ -672,7 +674,7 @@ func genDec(a hx.Args) {
 			}
 			step := 1
 			if a.Tier != "thorough" {
-				step = 100
+				step = 256
 			}
 			for x := int(r.Intn(step)); x < 256; x += step {
 				emit(e, ver, []byte{byte(x)})
